@@ -4,10 +4,11 @@ import pipecheck
 import pipes
 from pipecheck import canon_impl, canon_model, model_request  # noqa: F401
 
-LEAN_TARGETS = ["RxProofs.C02", "RxProofs.Ownership"]
+LEAN_TARGETS = ["RxProofs.C02", "RxProofs.Ownership", "RxProofs.C02Comb", "RxProofs.C02Timed", "RxProofs.C02Win"]
 DRIVER = "drv_pipe"
 DRIVER_ROOT = "Pipe"
-THEOREMS = ["C02.settle_closed", "C02.closed_always", "C02.graph_dispose_transitive", "C02.pipeline_release",
+SUPPORT_THEOREMS = ['C02Comb.terminal_releases_all_zip', 'C02Comb.terminal_releases_all_combine_latest', 'C02Comb.terminal_releases_all_with_latest_from', 'C02Comb.terminal_releases_all_fork_join', 'C02Comb.terminal_releases_all_amb', 'C02Comb.terminal_releases_all_amb2', 'C02Comb.terminal_releases_all_merge_all', 'C02Comb.terminal_releases_all_merge_maxc', 'C02Comb.terminal_releases_all_switch', 'C02Comb.terminal_releases_all_seq', 'C02Comb.terminal_releases_all_seq_inline', 'C02Comb.terminal_releases_all_catch_handler', 'C02Win.terminal_releases_all_count', 'C02Win.terminal_releases_all_boundaries', 'C02Win.terminal_releases_all_when', 'C02Win.terminal_releases_all_toggle', 'C02Win.terminal_releases_all_time', 'C02Win.terminal_releases_all_time_or_count', 'C02Win.terminal_releases_all_group', 'C02Comb.terminal_releases_all', 'C02Timed.terminal_releases_all', 'C02Timed.owned_step', 'C02Win.using_releases_all', 'C02Win.finally_action_releases_all', 'C02Win.terminal_releases_all_fin_partial']
+THEOREMS = SUPPORT_THEOREMS + ["C02.settle_closed", "C02.closed_always", "C02.graph_dispose_transitive", "C02.pipeline_release",
             "C02.late_attach_disposed", "C02.disposed_forever", "C02.terminal_disposes_root", "Ownership.ownership_ok",
             "Ownership.ownership_nonvacuous"]
 RULE = ("generated pipelines of 1..3 catalogued operator stages (122 stage kinds) over 4 logged cold/hot test sources with generated "
@@ -24,7 +25,7 @@ LEVEL_TEXT = ("Lean theorems over ALL sequences of container calls on a heap of 
               "C01 links a delivered terminal to dispose(root). Ownership of every acquired subscription by the returned disposable is a table "
               "regenerated from the source on every run and checked by `decide`. The heap model is tied to the code by replaying the recorded "
               "container calls of real generated pipelines and comparing every is_disposed flag; a release oracle runs on the same pipelines.")
-LEVEL_NOTE = ("Partial by catalogue: `pipeline_release` assumes each source subscription is reachable from the root (ownership, K2); that is the "
+LEVEL_NOTE = ("Per-operator release theorems (every event trace): combinators C02Comb.*, timed operators C02Timed.*, windows/groups/using/finally C02Win.* — proved by the families' builders over their trace machines and audited here. Otherwise partial by catalogue: `pipeline_release` assumes each source subscription is reachable from the root (ownership, K2); that is the "
               "regenerated AST table (161 call sites; 2 justified exceptions) plus the dynamic replay/oracle over the generated pipelines, not a "
               "per-operator Lean proof. Disposable actions (closures) are leaves of the model: their effects enter as recorded calls.")
 TECHNIQUE = "Lean 4 invariant proofs over a disposable-heap model + regenerated ownership table (decide) + recorded-trace correspondence"
